@@ -40,6 +40,12 @@ func scenarioC18(x *runner.X) {
 			jobs[i].err = fmt.Errorf("job-%d-failed: %w", i, context.Canceled)
 		case 2:
 			jobs[i].err = ErrNotFound
+		case 3: // the job ran a nested group and reports that group's list of errors
+			nested := ErrorSlice{}
+			for k := t.Range(1, 3); k > 0; k-- {
+				nested = append(nested, fmt.Errorf("job-%d-sub-%d-failed", i, k))
+			}
+			jobs[i].err = nested
 		}
 		if jobs[i].ok {
 			desc += "S"
